@@ -292,6 +292,73 @@ func c16Round(r *Run, idx int) {
 	r.Sample(4, map[string]any{"config": cfg, "gets": gets.Load(), "hits": h, "misses": m, "len": length, "estimated_size": est})
 }
 
+// c16RangeVsGet: Range and Get agree about which entries exist, also when some deadlines have just passed and the
+// cache's once-a-second cached clock has not caught up (virtual time moves, the cached clock is left behind by less
+// than the 30 s the read path tolerates). Deadlines keep two seconds clear of the probing instant.
+func c16RangeVsGet(r *Run, idx int) {
+	rng := r.Rng(int64(16600 + idx))
+	a, err := newAnyCache([]string{"plain", "loading"}[idx%2], anyOpts{MaxSize: 10000})
+	if err != nil {
+		r.Broken("build: %v", err)
+		return
+	}
+	defer a.store().Close()
+	st := a.store()
+	n := 100 + rng.Intn(200)
+	shift := time.Duration(8+rng.Intn(12)) * time.Second
+	dead := map[int]bool{}
+	for k := 0; k < n; k++ {
+		var ttl time.Duration
+		switch rng.Intn(3) {
+		case 0:
+			ttl = 0
+		case 1:
+			ttl = shift - time.Duration(2+rng.Intn(5))*time.Second // passed by the time of the probe
+			dead[k] = true
+		default:
+			ttl = shift + time.Duration(2+rng.Intn(8))*time.Second
+		}
+		a.set(k, int64(k)+1, 1, ttl)
+	}
+	a.wait()
+	st.VerifRefreshClock()
+	st.VerifShiftClock(shift, true) // the cached clock now lags by `shift` (< 30 s)
+	visited := map[int]bool{}
+	a.rangeAll(func(k int, v int64) bool { visited[k] = true; return true })
+	ghosts, hidden, served := 0, 0, 0
+	var first string
+	for k := 0; k < n; k++ {
+		hit := false
+		if a.kind == "plain" {
+			_, hit, _ = a.get(context.Background(), k)
+		} else {
+			hit = visited[k] // a loading Get would reload; Range is judged against the deadlines alone below
+		}
+		switch {
+		case visited[k] && !hit:
+			ghosts++
+			if first == "" {
+				first = fmt.Sprintf("Range visited key %d, Get(%d) misses", k, k)
+			}
+		case !visited[k] && hit:
+			hidden++
+		}
+		if dead[k] && visited[k] {
+			served++
+			if first == "" {
+				first = fmt.Sprintf("Range visited key %d whose deadline passed at least 2 s ago", k)
+			}
+		}
+	}
+	if ghosts+hidden+served > 0 {
+		r.Violate("range-and-get-disagree/deadlines-just-passed", fmt.Sprintf("round %d (%s cache, %d keys, virtual time +%v with the cached clock left behind): Range visited %d keys that Get misses, missed %d that Get finds, and visited %d whose deadline had passed (first: %s)", idx, a.kind, n, shift, ghosts, hidden, served, first),
+			map[string]any{"round": idx, "cache": a.kind})
+	}
+	r.Eval(1)
+	r.Count("range_vs_get_rounds", 1)
+	r.Distinct("range-vs-get/" + a.kind)
+}
+
 func runC16(r *Run) {
 	r.Rule("case = one round: concurrent mixed phase (Get/Set/SetWithTTL/Delete/Len/Range, same-key bursts, short TTLs), Stats compared with per-goroutine tallies once all calls returned; then a quiet phase, Wait, and comparison of Len / Range / early-stop Range / EstimatedSize / Get of every key. Non-trivial = every round; distinct by configuration tuple")
 	r.Assume("cost is encoded in the value (low 3 bits + 1) and applied through the cost function",
@@ -303,6 +370,9 @@ func runC16(r *Run) {
 	if r.Shard == 0 {
 		for i := 0; i < r.Pick(12, 120); i++ {
 			expiredThenRewritten(r, i, "C16")
+		}
+		for i := 0; i < r.Pick(8, 80); i++ {
+			c16RangeVsGet(r, i)
 		}
 		// Len and Range against what is resident after LoadCache into a cache in use (c02.go)
 		for i := 0; i < r.Pick(12, 120); i++ {
